@@ -517,7 +517,7 @@ def replay_native(ctx, inst, inputs, san=True, replay_file=None):
     if r.returncode != 0:
         return "error", "native harness build failed: " + r.stderr[-3000:]
     env = dict(os.environ, VP_REPLAY_FILE=replay_file,
-               ASAN_OPTIONS="exitcode=98:detect_leaks=%d:allocator_may_return_null=1" % (1 if "--memory-leak-check" in inst.checks else 0),
+               ASAN_OPTIONS="exitcode=98:detect_odr_violation=0:detect_leaks=%d:allocator_may_return_null=1" % (1 if "--memory-leak-check" in inst.checks else 0),
                UBSAN_OPTIONS="halt_on_error=1:exitcode=97:print_stacktrace=1")
     rc, out, err, wall, to = run_cmd([exe], 120, None, env=env)
     tail = err[-2500:]
